@@ -103,10 +103,25 @@ fn join(parts: &[String]) -> String {
     }
 }
 
-/// Resolve `path` in `nodes` the way the kernel does (no symbolic links): relative paths start
-/// at `cwd`; every component that is traversed, including the one in front of a `..`, must
-/// exist and be a directory; a trailing slash requires a directory; the empty path is ENOENT.
+/// Resolve `path` in `nodes` the way the kernel does: relative paths start at `cwd`; every
+/// component that is traversed, including the one in front of a `..`, must exist and be a
+/// directory; symbolic links are followed wherever they occur (at most 40 of them, then ELOOP),
+/// a relative target starting at the directory that holds the link, so that `..` after a link to
+/// a directory leads to the parent of the *target*; a trailing slash requires a directory; the
+/// empty path is ENOENT. The result is the physical path (no links, no `.`/`..`), which is also
+/// what `canonicalize` returns.
 pub fn walk(nodes: &BTreeMap<String, Node>, cwd: &str, path: &Path) -> Result<String, i32> {
+    walk_links(nodes, cwd, path).0
+}
+
+/// `walk`, and the number of symbolic links that were followed on the way (also on failure).
+pub fn walk_links(nodes: &BTreeMap<String, Node>, cwd: &str, path: &Path) -> (Result<String, i32>, usize) {
+    let mut links_followed = 0usize;
+    let r = walk_inner(nodes, cwd, path, &mut links_followed);
+    (r, links_followed)
+}
+
+fn walk_inner(nodes: &BTreeMap<String, Node>, cwd: &str, path: &Path, links_followed: &mut usize) -> Result<String, i32> {
     let raw = match path.to_str() {
         Some(s) => s,
         None => return Err(ENOENT),
@@ -128,37 +143,56 @@ pub fn walk(nodes: &BTreeMap<String, Node>, cwd: &str, path: &Path) -> Result<St
     let trailing_slash = raw.len() > 1 && raw.ends_with('/');
     // `x/.` also requires `x` to be a directory
     let trailing_dot = raw.ends_with("/.") || raw == ".";
-    let mut cur: Vec<String> = Vec::new();
-    // `Path::components` drops `.` and repeated slashes but keeps `..`.
-    for c in abs.components() {
-        match c {
-            Component::RootDir | Component::CurDir => {}
-            Component::Prefix(_) => return Err(ENOENT),
-            Component::ParentDir => {
-                match nodes.get(&join(&cur)) {
-                    Some(Node::Dir) => {}
-                    Some(Node::File(_)) => return Err(ENOTDIR),
-                    None => return Err(ENOENT),
-                }
-                cur.pop();
+    fn parts(p: &Path) -> Result<Vec<String>, i32> {
+        // `Path::components` drops `.` and repeated slashes but keeps `..`.
+        let mut v = vec![];
+        for c in p.components() {
+            match c {
+                Component::RootDir | Component::CurDir => {}
+                Component::Prefix(_) => return Err(ENOENT),
+                Component::ParentDir => v.push("..".to_string()),
+                Component::Normal(name) => v.push(name.to_str().ok_or(ENOENT)?.to_string()),
             }
-            Component::Normal(name) => {
-                match nodes.get(&join(&cur)) {
-                    Some(Node::Dir) => {}
-                    Some(Node::File(_)) => return Err(ENOTDIR),
-                    None => return Err(ENOENT),
-                }
-                let name = name.to_str().ok_or(ENOENT)?;
-                if name.len() > 255 {
-                    return Err(ENAMETOOLONG);
-                }
-                cur.push(name.to_string());
+        }
+        Ok(v)
+    }
+    let mut pending: std::collections::VecDeque<String> = parts(&abs)?.into();
+    let mut cur: Vec<String> = Vec::new();
+    while let Some(c) = pending.pop_front() {
+        match nodes.get(&join(&cur)) {
+            Some(Node::Dir) => {}
+            Some(Node::File(_)) => return Err(ENOTDIR),
+            // `cur` never ends in a link (links are replaced by their target as they are met)
+            Some(Node::Link(_)) | None => return Err(ENOENT),
+        }
+        if c == ".." {
+            cur.pop();
+            continue;
+        }
+        if c.len() > 255 {
+            return Err(ENAMETOOLONG);
+        }
+        cur.push(c);
+        if let Some(Node::Link(target)) = nodes.get(&join(&cur)) {
+            *links_followed += 1;
+            if *links_followed > 40 {
+                return Err(ELOOP);
+            }
+            if target.is_empty() {
+                return Err(ENOENT);
+            }
+            cur.pop();
+            if target.starts_with('/') {
+                cur.clear();
+            }
+            for x in parts(Path::new(target))?.into_iter().rev() {
+                pending.push_front(x);
             }
         }
     }
     let p = join(&cur);
     match nodes.get(&p) {
-        None => Err(ENOENT),
+        None | Some(Node::Link(_)) => Err(ENOENT),
         Some(Node::File(_)) if trailing_slash || trailing_dot => Err(ENOTDIR),
         Some(_) => Ok(p),
     }
@@ -185,6 +219,14 @@ pub fn apply_state_fault(nodes: &mut BTreeMap<String, Node>, f: &Fault) -> Optio
             None
         }
         Fault::Put { path, bytes, .. } => {
+            // the parent directory is resolved through symbolic links first, if it resolves
+            let path: &String = &match path.rfind('/') {
+                Some(i) if i > 0 => match walk(nodes, "/", Path::new(&path[..i])) {
+                    Ok(parent) => format!("{}/{}", parent.trim_end_matches('/'), &path[i + 1..]),
+                    Err(_) => path.clone(),
+                },
+                _ => path.clone(),
+            };
             // parents are created on demand; a directory of that name is replaced
             let mut cur = String::new();
             let parts: Vec<&str> = path.split('/').filter(|p| !p.is_empty()).collect();
@@ -238,6 +280,16 @@ impl SimState {
 
     fn walk(&self, path: &Path) -> Result<String, i32> {
         walk(&self.nodes, &self.cwd, path)
+    }
+
+    /// `walk`, noting in `fired` (the per-call record of what the simulated environment did)
+    /// that symbolic links were followed.
+    fn walk_noting(&self, path: &Path, fired: &mut Vec<&'static str>) -> Result<String, i32> {
+        let (r, links) = walk_links(&self.nodes, &self.cwd, path);
+        if links > 0 {
+            fired.push(if r.is_ok() { "symlink_followed" } else { "symlink_followed_to_nothing" });
+        }
+        r
     }
 
     /// Start serving a seam call: enforce the budget and apply the state-changing dynamic
@@ -301,7 +353,7 @@ impl SimEnv for Sim {
     fn is_file(&self, path: &Path) -> bool {
         let mut s = self.0.borrow_mut();
         let (seq, mut fired) = s.tick();
-        let resolved = s.walk(path).ok();
+        let resolved = s.walk_noting(path, &mut fired).ok();
         let mut r = match &resolved {
             Some(p) => matches!(s.nodes.get(p), Some(Node::File(_))),
             None => false,
@@ -332,7 +384,7 @@ impl SimEnv for Sim {
     fn read_to_string(&self, path: &Path) -> io::Result<String> {
         let mut s = self.0.borrow_mut();
         let (seq, mut fired) = s.tick();
-        let walked = s.walk(path);
+        let walked = s.walk_noting(path, &mut fired);
         let resolved = walked.clone().ok();
         let res: io::Result<String> = (|| {
             let p = walked.map_err(os_err)?;
@@ -352,7 +404,7 @@ impl SimEnv for Sim {
             let mut bytes = match s.nodes.get(&p) {
                 Some(Node::Dir) => return Err(os_err(EISDIR)),
                 Some(Node::File(b)) => b.clone(),
-                None => return Err(os_err(ENOENT)),
+                Some(Node::Link(_)) | None => return Err(os_err(ENOENT)),
             };
             for f in &s.faults {
                 match f {
